@@ -270,6 +270,21 @@ def load_known():
 # ---------------------------------------------------------------- one check
 
 def run_check(pid, tier, seed, replay=None, n_override=None):
+    cfg = load_cfg(pid)
+    if not cfg.get("gen"):
+        return run_check_locked(pid, tier, seed, replay, n_override)
+    # properties with regenerated model parts write into the shared coq/<Group>/ directory:
+    # one run at a time, and a run against a scratch tree restores the files from /repo
+    with Lock("run-" + cfg["group"]):
+        try:
+            return run_check_locked(pid, tier, seed, replay, n_override)
+        finally:
+            if REPO != "/repo":
+                for g in cfg.get("gen", []):
+                    sh(g["cmd"], cwd=VERIF, env=dict(GOENV, VERIF_REPO="/repo"), timeout=1800)
+
+
+def run_check_locked(pid, tier, seed, replay=None, n_override=None):
     t0 = time.time()
     cfg = load_cfg(pid)
     group = cfg["group"]
